@@ -22,8 +22,15 @@ import (
 // openPaths returns the four ways of turning a stored file root into a node.
 func openPaths(c *mon.Case, st *store.Store, root cid.Cid) map[string]ipld.Node {
 	out := map[string]ipld.Node{}
-	ls := st.LinkSystem(true)
-	raw, err := loadRaw(ls, root)
+	// rotate over link-system configurations: plain, reifier table with other entries, NodeReifier installed
+	lsCfgSalt++
+	cfg := lsCfgSalt % 3
+	if cfg == 2 && st.TotalBytes() > 20000 {
+		cfg = 1 // the NodeReifier configuration re-reads whole sub-trees per Read call: keep it to small files
+	}
+	ls := st.LinkSystemCfg(true, cfg == 1, cfg == 2)
+	c.Count(fmt.Sprintf("linksystem_cfg_%d", cfg), 1)
+	raw, err := loadRaw(st.LinkSystem(false), root)
 	if err != nil {
 		c.Violation("C01|load-root", "loading stored root %s: %v", root, err)
 		return out
@@ -136,6 +143,32 @@ func checkReadBack(c *mon.Case, st *store.Store, root cid.Cid, content []byte, w
 				}
 			})
 		}
+		c.Guard("Read loop with empty reads", func() {
+			// a zero-length Read between ordinary reads must neither consume nor end the stream
+			if r := open(); r != nil {
+				var out bytes.Buffer
+				buf := make([]byte, 5)
+				var rerr error
+				for i := 0; i < len(content)+16; i++ {
+					if n0, e0 := r.Read(nil); n0 != 0 || (e0 != nil && (e0 != io.EOF || out.Len() < len(content))) {
+						rerr = fmt.Errorf("Read(nil) after %d of %d bytes returned (%d, %v)", out.Len(), len(content), n0, e0)
+						break
+					}
+					n, err := r.Read(buf)
+					out.Write(buf[:n])
+					if err == io.EOF {
+						break
+					}
+					if err != nil {
+						rerr = err
+						break
+					}
+				}
+				if len(content) <= 1<<16 {
+					cmp("Read(buf=5,empty-interleaved)", out.Bytes(), rerr)
+				}
+			}
+		})
 		if len(content) <= 1<<16 {
 			c.Guard("OneByteReader", func() {
 				if r := open(); r != nil {
@@ -174,6 +207,17 @@ func checkReadBack(c *mon.Case, st *store.Store, root cid.Cid, content []byte, w
 					r.Seek(0, io.SeekStart)
 					third, err := io.ReadAll(r)
 					cmp("ReadAll#3-after-peek", third, err)
+					// read a header, then hand the rest to io.Copy (which prefers io.WriterTo)
+					r.Seek(0, io.SeekStart)
+					io.ReadFull(r, peek)
+					var rest bytes.Buffer
+					_, err = io.Copy(&rest, r)
+					cmp("peek+io.Copy", append(append([]byte(nil), peek...), rest.Bytes()...), err)
+					if _, err := r.Seek(int64(len(content)/2), io.SeekStart); err == nil {
+						rest.Reset()
+						_, err = io.Copy(&rest, r)
+						cmp("seek+io.Copy", append(append([]byte(nil), content[:len(content)/2]...), rest.Bytes()...), err)
+					}
 				}
 			}
 		})
@@ -246,6 +290,64 @@ func TestC01(t *testing.T) {
 			c.Count("builds", 1)
 			checkReadBack(c, st, root, content, "builder/"+chunkerKind(fc.Chunker)+fmt.Sprintf("/w%d", fc.Width), chunkBytesOf(fc.Chunker))
 			c.Sample(map[string]any{"root": root.String(), "blocks": st.Len(), "reads_compared": "see counters"})
+		})
+	}
+	if !r.Quick() {
+		// 2^32+1 bytes of streamed zeros: lengths and offsets beyond 32 bits
+		r.Case("build/huge-zero-stream", map[string]any{"len": int64(1)<<32 + 1, "width": 2, "chunker": "size-1048576"}, func(c *mon.Case) {
+			const n = int64(1)<<32 + 1
+			st := store.New()
+			var l ipld.Link
+			var err error
+			withWidth(2, func() { l, _, err = builder.BuildUnixFSFile(&zeroReader{left: n}, "size-1048576", st.LinkSystem(false)) })
+			if err != nil {
+				c.Violation("C01|build-error", "%v", err)
+				return
+			}
+			ls := st.LinkSystem(true)
+			node, err := loadReified(ls, linkCid(l))
+			if err != nil {
+				c.Violation("C01|open|reify", "%v", err)
+				return
+			}
+			if rn, e := walkerFor(st).Node(linkCid(l)); e == nil && (rn.FS == nil || rn.FS.GetFilesize() != uint64(n)) {
+				c.Violation("C01|filesize|wrong", "declared FileSize %v for %d bytes", rn.FS.GetFilesize(), n)
+			}
+			rs, _ := node.(largeBytes).AsLargeBytes()
+			if end, err := rs.Seek(0, io.SeekEnd); err != nil || end != n {
+				c.Violation("C01|seek-end", "Seek(0,End) = (%d,%v), want %d", end, err, n)
+			}
+			// the last bytes, addressed with an offset beyond 2^32
+			if _, err := rs.Seek(n-3, io.SeekStart); err == nil {
+				tail, err := io.ReadAll(rs)
+				if err != nil || len(tail) != 3 {
+					c.Violation("C01|bytes-differ|tail", "reading from offset 2^32-2 returned %d bytes, err %v", len(tail), err)
+				}
+			}
+			rs.Seek(0, io.SeekStart)
+			var total int64
+			buf := make([]byte, 1<<20)
+			nonzero := false
+			for {
+				k, err := rs.Read(buf)
+				for _, b := range buf[:k] {
+					if b != 0 {
+						nonzero = true
+					}
+				}
+				total += int64(k)
+				if err != nil {
+					if err != io.EOF {
+						c.Violation("C01|read-error|huge", "after %d bytes: %v", total, err)
+					}
+					break
+				}
+			}
+			c.Count("reads_compared", 1)
+			if total != n || nonzero {
+				c.Violation("C01|bytes-differ|huge", "streamed %d bytes (non-zero byte seen: %v), want %d zeros", total, nonzero, n)
+			}
+			c.Sig("builder/huge", true)
 		})
 	}
 	// files written by the reference importer in its eight modes
